@@ -202,8 +202,17 @@ def check(ctx):
             if kind in ('min', 'max') and fam == 'mixed':
                 fam = 'dyadic'
             vals = c05.gen_values(rng, n, shape, fam)
+            if shape and int(np.prod(shape)) >= 2 and rng.random() < 0.2:
+                # components on very different footings: one of order ten, the others a large offset with a tiny spread
+                # (1000 + k/1024): what happens to one component must not depend on the others
+                k = int(np.prod(shape))
+                vals = [{'arr': np.array([rng.randint(-80, 80) / 8.0] + [1000.0 + rng.randint(-8, 8) / 1024.0 for _ in range(k - 1)]).reshape(shape).tolist(),
+                         'dtype': 'float64'} for _ in range(n)]
+                fam = 'percomponent-offset'
             L = rng.choice([1, 2, 5, 10])
             merge_at = rng.randint(0, n) if rng.random() < 0.4 else None
+            if fam == 'percomponent-offset' and n >= 4:
+                merge_at = rng.randint(2, n - 2)
             grid_case(ctx, kind, shape, vals, L, merge_at)
         ncomp = int(np.prod(shape)) if shape else 1
         flat = [acclib.flat(v)[1] for v in vals]
